@@ -206,3 +206,52 @@ func c10Seeds(r *hx.Rand, n int, out *hx.Out, _ []string) {
 			Desc: fmt.Sprintf("base=%q file=%s document: %s", base, s.path, string(s.data))})
 	}
 }
+
+// c10Doubles: native JSON numbers with a fraction or an exponent become xsd:double literals in the canonical lexical
+// form (mantissa with at least one fraction digit, 'E', exponent without sign '+' or leading zeros). The model keeps
+// floating point out, so this is an end-to-end oracle over a table of spellings and their canonical forms.
+var c10DoubleTable = [][2]string{
+	{"0.05", "5.0E-2"}, {"-0.25", "-2.5E-1"}, {"1.5e-7", "1.5E-7"}, {"1.5", "1.5E0"}, {"100.5", "1.005E2"}, {"3.0e-10", "3.0E-10"},
+	{"5.3", "5.3E0"}, {"1.055E2", "1.055E2"}, {"2.55e+1", "2.55E1"}, {"0.001", "1.0E-3"}, {"-1.5E-12", "-1.5E-12"}, {"123456.789", "1.23456789E5"},
+	{"1e-1", "1.0E-1"}, {"9.99e-5", "9.99E-5"}, {"0.5", "5.0E-1"}, {"1e21", "1.0E21"}, {"1.25e100", "1.25E100"}, {"4.0e-100", "4.0E-100"},
+}
+
+func c10Doubles(r *hx.Rand, n int, out *hx.Out, _ []string) {
+	for c := 0; c < n; c++ {
+		rr := r.Fork()
+		e := c10DoubleTable[c%len(c10DoubleTable)]
+		var doc string
+		switch rr.Intn(4) {
+		case 0:
+			doc = `{"@id":"http://e/s","http://e/p":` + e[0] + `}`
+		case 1:
+			doc = `{"@id":"http://e/s","http://e/p":{"@value":` + e[0] + `}}`
+		case 2:
+			doc = `{"@id":"http://e/s","http://e/p":{"@list":[` + e[0] + `]}}`
+		default:
+			doc = `{"@context":{"p":{"@id":"http://e/p","@type":"http://www.w3.org/2001/XMLSchema#double"}},"@id":"http://e/s","p":` + e[0] + `}`
+		}
+		res := zooRun("jsonld", []byte(doc), zooOpts{})
+		oracle, got := "", ""
+		if res.verdict != "ok" {
+			oracle = "the document is rejected: " + res.detail
+		} else {
+			found := false
+			for _, q := range res.quads {
+				if l, ok := q.Triple.Object.(rdf.Literal); ok {
+					found = true
+					got = l.LexicalForm + "^^" + string(l.Datatype)
+					if l.LexicalForm != e[1] || string(l.Datatype) != xsdNS+"double" {
+						oracle = fmt.Sprintf("the number %s is decoded as %q^^<%s>, the canonical xsd:double form is %q", e[0], l.LexicalForm, l.Datatype, e[1])
+					}
+				}
+			}
+			if !found {
+				oracle = "no literal decoded"
+			}
+		}
+		out.Emit(hx.Case{Kind: "K/C10/double", Impl: got, Class: "native-double", NonTri: true, Oracle: oracle, Desc: doc})
+	}
+}
+
+func init() { families["c10-doubles"] = c10Doubles }
